@@ -6,6 +6,9 @@ from engine import docs
 from engine.spec import Spec
 
 RULES = ["md009", "md010", "md012", "md013", "md047"]
+# heading / fence rules with an oracle on the reference parser's block structure
+RULES2 = ["md001", "md018", "md019", "md023", "md025", "md040", "md041"]
+_POOL2 = ["# a\n### b\n #c\n##  d\n", "#a b\n\n```\nc\n``` \n", "# a\n\n# b\n\n  ## c\n"]
 _POOL = ["a \n\n\n\nb  \n", "# a  \n\tb\n", "```\nc  \n\n\n```\nd", "- a  \n\n\n  b \n", "    c  \n\na\tb\n"]
 
 
@@ -15,11 +18,11 @@ class C06(Spec):
     real_module = "checks.rule_real"
     cuts = _CUTS
     stubs = ["reference parser markdown-it-py (vendored) supplies the block structure (which lines are code, whether containers/HTML blocks occur)", "VFS; presentation stub; the rule's PluginManager is built per path with the symbolic configuration"]
-    rule_text = ("per covered rule (MD009, MD010, MD012, MD013, MD047) enabled alone: the document cells AND the rule's configuration (br_spaces 0..6, strict Bool; maximum 0..6; line_length any Int >= 1 applied to all three limits, strict Bool) are z3 variables; "
+    rule_text = ("per covered rule (MD009, MD010, MD012, MD013, MD047; MD001, MD018, MD019, MD023, MD025, MD040, MD041 with symbolic `level`) enabled alone: the document cells AND the rule's configuration (br_spaces 0..6, strict Bool; maximum 0..6; line_length any Int >= 1 applied to all three limits, strict Bool) are z3 variables; "
                  "assertion: set of reported lines == lines computed by the documented condition (engine/oracles/rrule.py) on the source and the reference parser's block map; paths on which pymarkdown's HTML differs from the reference are skipped (C03 precondition); "
                  "distinct = distinct (rule, reported line sets)")
     assumptions = ["cells range over the C03 domain (U+0009, U+000A, U+0020-U+007E, U+00E9, U+03B1, U+4E2D)", "MD012 is compared only on documents without containers and HTML blocks; MD047 only on non-empty documents; MD013 'stern' mode is not covered"]
-    outside = ["rules whose documentation is not a crisp text-level condition, and the crisp rules not yet given an oracle (MD001, MD003, MD004, MD018, MD019, MD022-MD026, MD031, MD032, MD035, MD040-MD042, MD045, MD046, MD048)",
+    outside = ["rules whose documentation is not a crisp text-level condition, and the crisp rules not yet given an oracle (MD003, MD004, MD022, MD024, MD026, MD031, MD032, MD035, MD042, MD045, MD046, MD048)", "the heading/fence oracles are compared on documents without containers; MD019 on headings without TAB and with text",
                "documents beyond the stated skeletons / cells"]
 
     def job(self, params, budget=240.0):
@@ -36,13 +39,20 @@ class C06(Spec):
             g2 = g2[::3] if tier == "quick" else g2[::2]
             for s in base + g2:
                 out.append(self.job(dict(s, rule=r), budget=240.0 if tier == "quick" else 600.0))
+        for r in RULES2:
+            tpl = {"md001": "heading-levels", "md025": "heading-levels", "md041": "heading-levels", "md040": "fence-lengths"}.get(r, "hashes-and-spaces")
+            base = docs.g1_shards(1) + docs.g3_shards([tpl] if tier == "quick" else ["heading-levels", "hashes-and-spaces", "fence-lengths"])
+            g2 = docs.g2_shards(_POOL2[:2] if tier == "quick" else _POOL2, replace=True)
+            g2 = g2[::9] if tier == "quick" else g2[::2]
+            for s in base + g2:
+                out.append(self.job(dict(s, rule=r), budget=200.0 if tier == "quick" else 500.0))
         # MD013 'special elements': three independent limits (1..12) and the two switches symbolic
         for sk in (["# ab cd e\n\n    fg hi\n\njk lm n\n"] if tier == "quick" else ["# ab cd e\n\n    fg hi\n\njk lm n\n", "ab c\n===\n\n```\nd e f g\n```\n"]):
             out.append(self.job({"skeleton": sk, "holes": [], "rule": "md013x"}, budget=600.0))
         return out
 
     def bounds_text(self, tier):
-        return {"rules": RULES, "documents": "G1 length 0..1 + 2 skeletons every third position (quick) / G1 0..2 + 5 skeletons every second position (thorough)", "configuration": "br_spaces, maximum in 0..6; line_length unbounded Int >= 1; strict symbolic Bool; MD013 special elements: line/heading/code limits 1..12 independent, code_blocks and headings symbolic Bools"}
+        return {"rules": RULES + RULES2, "documents": "G1 length 0..1 + 2 skeletons every third position (quick) / G1 0..2 + 5 skeletons every second position (thorough)", "configuration": "br_spaces, maximum in 0..6; line_length unbounded Int >= 1; strict symbolic Bool; MD013 special elements: line/heading/code limits 1..12 independent, code_blocks and headings symbolic Bools"}
 
     def readable(self, case):
         from checks.rule_real import doc_of
